@@ -142,6 +142,108 @@ def build_runc(sc, mod, cases, race=False, name="runc"):
     return out
 
 
+RUNLC = '''package main
+
+import (
+	"encoding/json"
+	"fmt"
+	gotoken "go/token"
+	"os"
+	"reflect"
+	"sync"
+
+	"github.com/dcaiafa/loxlex/simplelexer"
+%(imports)s
+)
+
+var subjects = map[string]func() simplelexer.StateMachine{
+%(table)s
+}
+
+type inst struct {
+	Case string `json:"case"`
+	In   string `json:"in"`
+}
+
+func lexAll(c string, in string) [][3]int {
+	data := []byte(in)
+	fset := gotoken.NewFileSet()
+	file := fset.AddFile("in", -1, len(data))
+	lx := simplelexer.New(simplelexer.Config{StateMachine: subjects[c](), File: file, Input: data})
+	var out [][3]int
+	for n := 0; n < 4*len(data)+16; n++ {
+		tok, ty := lx.ReadToken()
+		s := int(tok.Pos) - file.Base()
+		out = append(out, [3]int{ty, s, s + len(tok.Str)})
+		if ty == simplelexer.EOF {
+			break
+		}
+	}
+	return out
+}
+
+func main() {
+	var insts []inst
+	json.Unmarshal([]byte(os.Args[1]), &insts)
+	seq := make([][][3]int, len(insts))
+	for i, it := range insts {
+		seq[i] = lexAll(it.Case, it.In)
+	}
+	bad := 0
+	for round := 0; round < %(rounds)d; round++ {
+		got := make([][][3]int, len(insts))
+		var wg sync.WaitGroup
+		start := make(chan struct{})
+		for i := range insts {
+			wg.Add(1)
+			go func(i int) {
+				defer wg.Done()
+				<-start
+				got[i] = lexAll(insts[i].Case, insts[i].In)
+			}(i)
+		}
+		close(start)
+		wg.Wait()
+		for i := range insts {
+			if !reflect.DeepEqual(got[i], seq[i]) {
+				bad++
+				fmt.Printf("DIFF %%s %%q\\n", insts[i].Case, insts[i].In)
+			}
+		}
+	}
+	fmt.Printf("ROUNDS %%d BAD %%d\\n", %(rounds)d, bad)
+}
+'''
+
+
+def lexer_stress(rep, sc, lmod, lacc, rounds):
+    ok = [c for c in lacc if c["gen"]["ok"]]
+    imports = "\n".join('\t%s "xv/%s"' % (c["gen"]["pkg"], c["gen"]["pkg"]) for c in ok)
+    table = "\n".join('\t"%s": func() simplelexer.StateMachine { return %s.NewSM() },' % (c["gen"]["pkg"], c["gen"]["pkg"]) for c in ok)
+    d = os.path.join(lmod, "runlc")
+    os.makedirs(d, exist_ok=True)
+    open(os.path.join(d, "main.go"), "w").write(RUNLC % {"imports": imports, "table": table, "rounds": rounds})
+    exe = os.path.join(sc, "bin", "runlc")
+    p = run(["go", "build", "-race", "-o", exe, "./runlc"], cwd=lmod, check=False, env=GOENV_RACE, timeout=1200)
+    if p.returncode != 0:
+        raise Infra("lexer race runner does not build: " + p.stderr.decode()[-2000:])
+    texts = ["+-(--)-+", "p((p)p)p", "if iff fi", "pa pb x x p", "\"p{p}p\" 12+3", "abc abd a ab", "(((", "))) +"]
+    insts = [{"case": ok[k % len(ok)]["gen"]["pkg"], "in": texts[k % len(texts)]} for k in range(64)]
+    env = dict(os.environ); env["GORACE"] = "halt_on_error=0 exitcode=66"
+    q = subprocess.run([exe, json.dumps(insts)], stdout=subprocess.PIPE, stderr=subprocess.PIPE, timeout=1200, env=env)
+    err = q.stderr.decode(errors="replace")
+    out = q.stdout.decode()
+    races = err.count("WARNING: DATA RACE")
+    if races or q.returncode == 66:
+        rep.failure("c18.data-race-lexer", "race detector: %d data race(s) among 64 concurrent lexers: %s" % (races, err[:600]), {"stderr": err[:4000]})
+    elif q.returncode != 0:
+        raise Infra("lexer race runner failed: " + err[-1500:])
+    m = re.search(r"ROUNDS (\d+) BAD (\d+)", out)
+    if m and int(m.group(2)) > 0:
+        rep.failure("c18.concurrent-lexing-changes-result", "%s lexer runs differ from their sequential result: %s" % (m.group(2), out[:400]), {"out": out[:2000]})
+    return rounds * 64, races
+
+
 def strip(res):
     return {"ok": res["ok"], "panic": res["panic"], "budget": res["budget"], "events": res["events"]}
 
@@ -285,7 +387,9 @@ def c18(tier):
             if got["ok"] != want["ok"] or (got["events"] or []) != (want["events"] or []):
                 rep.failure("c18.concurrent-run-changes-result", "free-running round %d: goroutine %d (%s on %s) differs from its sequential run" % (
                     -o["sched"], k, it["case"], it["w"]), {"inst": it})
+    nlex, lraces = lexer_stress(rep, sc, lmod, lacc, 5 if quick else 60)
     rep.coverage = {
+        "lexer_concurrent_runs": nlex, "lexer_race_reports": lraces,
         "states": tstates, "transitions": ttrans, "traces_validated_against_impl": nsched,
         "evaluations": nsched + nfree * 64, "distinct_nontrivial": nsched,
         "rule": "schedules: every interleaving (TLC, Concurrent.tla) of 2-3 parser instances at the granularity of lexer reads, same "
